@@ -1,5 +1,6 @@
 import DaskModel.Model.Structural
 import DaskModel.Lemmas.ChunksPlanner
+import DaskModel.Lemmas.ChunksBlocks
 /-! Helper lemmas for C24 (structural operations). -/
 namespace Dask.Structural
 open Dask.Chunks
@@ -270,6 +271,121 @@ theorem piece_eq {α} (d : α) (ys : List α) (L : Nat) (f : Nat → α) (hlen :
 theorem self_eq_map_range {α} [Inhabited α] (xs : List α) :
     xs = (List.range xs.length).map (fun i => xs.getD i default) :=
   eq_map_range default xs _ (fun _ _ => rfl)
+
+
+/-! proofs -/
+theorem mem_insertP (a x : Nat × Nat) : ∀ l, x ∈ insertP a l ↔ x = a ∨ x ∈ l
+  | [] => by simp [insertP]
+  | b :: l => by
+    unfold insertP; split
+    · simp
+    · simp only [List.mem_cons, mem_insertP a x l]
+      constructor <;> intro h <;> rcases h with h | h | h <;> simp [h]
+
+theorem length_insertP (a : Nat × Nat) : ∀ l, (insertP a l).length = l.length + 1
+  | [] => rfl
+  | b :: l => by unfold insertP; split <;> simp [length_insertP a l]
+
+theorem mem_sortPairs_aux (x : Nat × Nat) : ∀ (l : List (Nat × Nat)), x ∈ l.foldr insertP [] ↔ x ∈ l
+  | [] => by simp
+  | a :: l => by simp only [List.foldr_cons, mem_insertP, mem_sortPairs_aux x l, List.mem_cons]
+
+theorem length_sortPairs_aux : ∀ (l : List (Nat × Nat)), (l.foldr insertP []).length = l.length
+  | [] => rfl
+  | a :: l => by simp only [List.foldr_cons, length_insertP, length_sortPairs_aux l, List.length_cons]
+
+theorem mem_sortPairs (T : List Nat) (x : Nat × Nat) : x ∈ sortPairs T ↔ T[x.2]? = some x.1 := by
+  unfold sortPairs; rw [mem_sortPairs_aux, List.mem_zipIdx_iff_getElem?]
+
+theorem length_sortPairs (T : List Nat) : (sortPairs T).length = T.length := by
+  unfold sortPairs; rw [length_sortPairs_aux, List.length_zipIdx]
+
+theorem runsBy_flatten (key : Nat → Nat) : ∀ l, (runsBy key l).flatMap (·.2) = l
+  | [] => rfl
+  | g :: gs => by
+    have ih := runsBy_flatten key gs
+    unfold runsBy
+    cases h : runsBy key gs with
+    | nil => rw [h] at ih; simp at ih; subst ih; simp
+    | cons kr rest =>
+      obtain ⟨k, run⟩ := kr
+      rw [h] at ih
+      simp only
+      split
+      · simp only [List.flatMap_cons] at ih ⊢; rw [← ih]; simp
+      · simp only [List.flatMap_cons] at ih ⊢; rw [← ih]; simp
+
+theorem runsBy_key (key : Nat → Nat) : ∀ l, ∀ cr ∈ runsBy key l, ∀ g ∈ cr.2, key g = cr.1
+  | [], cr, h, _, _ => by simp [runsBy] at h
+  | g :: gs, cr, h, g', hg' => by
+    have ih := runsBy_key key gs
+    unfold runsBy at h
+    cases hr : runsBy key gs with
+    | nil =>
+      rw [hr] at h; simp at h; subst h; simp at hg'; subst hg'; rfl
+    | cons kr rest =>
+      obtain ⟨k, run⟩ := kr
+      rw [hr] at h ih
+      simp only at h
+      split at h
+      · rename_i hk
+        rcases List.mem_cons.1 h with h | h
+        · subst h
+          rcases List.mem_cons.1 hg' with h2 | h2
+          · subst h2; exact hk
+          · exact ih (k, run) (by simp) g' h2
+        · exact ih cr (by simp [h]) g' hg'
+      · rcases List.mem_cons.1 h with h | h
+        · subst h; simp at hg'; subst hg'; rfl
+        · exact ih cr h g' hg'
+
+/-- reading global index `g` through the block decomposition -/
+theorem block_read {α} [Inhabited α] (old : List Nat) (xs : List α) (g : Nat) (hg : g < sum old) :
+    ((splitBy old xs).getD (sourceOf old g) []).getD (g - blockStart old (sourceOf old g)) default = xs.getD g default := by
+  obtain ⟨b, o, hb⟩ := blockOf_some hg
+  obtain ⟨c, hc, ho, hs⟩ := blockOf_spec hb
+  have hsrc : sourceOf old g = b := by simp [sourceOf, hb]
+  rw [hsrc, splitBy_getD old xs b c hc]
+  have : g - blockStart old b = o := by omega
+  rw [this]
+  simp only [List.getD_eq_getElem?_getD, List.getElem?_take, ho, if_true, List.getElem?_drop, hs]
+
+theorem flatMap_congr' {β γ} {f g : β → List γ} : ∀ {l : List β}, (∀ x ∈ l, f x = g x) → l.flatMap f = l.flatMap g
+  | [], _ => rfl
+  | a :: l, h => by
+    simp only [List.flatMap_cons]
+    rw [h a (by simp), flatMap_congr' (fun x hx => h x (by simp [hx]))]
+
+
+theorem packGroups_spec (limit tn td : Nat) : ∀ (groups : List (List Nat)) (cur : List Nat),
+    (packGroups limit tn td cur groups).flatten = cur ++ groups.flatten ∧
+    ∀ c ∈ packGroups limit tn td cur groups, c ≠ []
+  | [], cur => by
+    unfold packGroups
+    split
+    · rename_i h
+      exact ⟨by simp, fun c hc => by simp at hc; subst hc; intro h0; subst h0; simp at h⟩
+    · rename_i h
+      have : cur = [] := List.eq_nil_of_length_eq_zero (by omega)
+      subst this; exact ⟨by simp, by simp⟩
+  | idx :: rest, cur => by
+    unfold packGroups
+    split
+    · rename_i h
+      obtain ⟨i1, i2⟩ := packGroups_spec limit tn td rest idx
+      refine ⟨by simp [i1], fun c hc => ?_⟩
+      rcases List.mem_cons.1 hc with rfl | hc
+      · intro h0; subst h0; simp at h
+      · exact i2 c hc
+    · split
+      · rename_i h
+        obtain ⟨i1, i2⟩ := packGroups_spec limit tn td rest []
+        refine ⟨by simp [i1], fun c hc => ?_⟩
+        rcases List.mem_cons.1 hc with rfl | hc
+        · intro h0; rw [h0] at h; simp at h
+        · exact i2 c hc
+      · obtain ⟨i1, i2⟩ := packGroups_spec limit tn td rest (cur ++ idx)
+        exact ⟨by simp [i1], i2⟩
 
 
 end Dask.Structural
